@@ -155,7 +155,12 @@ def check_word(r, w, fam, containers=('f', 'i', 'l'), label=None):
                 r.expect_ints('all.equals-turning-points', sub, got, ref.turning_points(xs)[0])
     # cycle counter (also at 1e-9 of the amplitude for the short words, and on integer-typed containers)
     for scale_tag, arr in ((('', np.array(w, dtype=float)),) + (((' x1e-9', np.array(w, dtype=float) * 1e-9), (' int64', np.array(w, dtype=np.int64)),
-                                                                  (' list-of-int', [int(v) for v in w]), (' int8', np.array(w, dtype=np.int8))) if n <= 5 else ())):
+                                                                  (' list-of-int', [int(v) for v in w]), (' int8', np.array(w, dtype=np.int8)),
+                                                                  # steps far below single precision of the level / of anything: the counter depends on
+                                                                  # the order of the samples only
+                                                                  (' 250+x1e-6', 250.0 + np.array(w, dtype=float) * 1e-6), (' 1e9+x', 1e9 + np.array(w, dtype=float)),
+                                                                  (' x1e-60', np.array(w, dtype=float) * 1e-60), (' x1e-170', np.array(w, dtype=float) * 1e-170),
+                                                                  (' x1e300', np.array(w, dtype=float) * 1e300)) if n <= 5 else ())):
       for opt in ('all', 'switched'):
           if opt == 'all':
               P = list(idx)
